@@ -130,6 +130,11 @@ def structured(b, r):
         yield "footer-empty", body + b"\n\n"
         yield "footer-long", body + b"\n" + b"A" * 5000 + b"5\n"
         yield "footer-extra-after", body + b"\nEST5\nGARBAGE\x00\xff"
+        # rules inside the grammar whose geometry is odd: a DST period shorter than its own saving (the fall-back
+        # crosses the spring-forward on the local time line), start = end, a saving of a whole day
+        for s in (b"AAA0BBB-2,J100/0,J100/2:30", b"AAA12BBB-12,J100/0,J101/6", b"AAA0BBB-1,J100/0,J100/0", b"AAA0BBB-2,J100/3,J100/2",
+                  b"AAA5BBB4:59:59,M3.2.0,M3.2.0/2"):
+            yield "footer-odd=%s" % s.decode(), body + b"\n" + s + b"\n"
         for s in r.sample(posixgen.sentences(r.randrange(10 ** 6), 40), 25):
             if b"\n" not in s:
                 yield "footer=%r" % s[:30], body + b"\n" + s + b"\n"
@@ -145,6 +150,10 @@ def type_table_full(r):
     trans = [(200000 * i, i % 256) for i in range(1, 300)]
     yield "types-256+new-footer", tzgen.tzif(2, trans, types, b"NEW5NDT,M3.2.0,M11.1.0")
     yield "types-256+std-footer", tzgen.tzif(2, trans, types, b"XYZ-3")
+    # every type daylight-saving (the search for a standard-time default type finds none), type 0 in use
+    for n in (256, 255, 2):
+        yield "types-%d-all-dst" % n, tzgen.tzif(2, [(200000 * i, (i - 1) % n) for i in range(1, 40)],
+                                                  [(i * 10, True, b"D%02d" % (i % 40)) for i in range(n)], b"XYZ-3")
     types = types[:254]
     trans = [(200000 * i, i % 254) for i in range(1, 300)]
     yield "types-254+new-footer", tzgen.tzif(2, trans, types, b"NEW5NDT,M3.2.0,M11.1.0")
